@@ -64,6 +64,8 @@ static size_t forge(uint8_t *out, int what, int64_t arg, const uint8_t ver[2])
 	}
 }
 
+static int evil_seq(Conn *c, int dir, int idx, uint8_t seq[8]);
+
 static void inject_after(Conn *c, int dir, int idx)
 {
 	static uint8_t tmp[65536 + 64];
@@ -78,6 +80,24 @@ static void inject_after(Conn *c, int dir, int idx)
 			int sd = (int)f->a, sr = (int)f->b;
 			Pipe *sp = &c->pipe[sd];
 			if (sr >= 0 && sr < sp->nrecs && sr < MAX_REC && sp->recs[sr].off + sp->recs[sr].len <= sp->sent_len) {
+				if (f->c >= 8 && f->c <= 63 && sd == dir && !sp->recs[sr].in_hs && g_ep[0].conn && g_ep[1].conn) {
+					/* long-lived connection: pretend that exactly 2^c records have been exchanged since the
+					 * replayed one was sent, by advancing the counters of both endpoints by the same amount */
+					uint8_t sq[8]; uint64_t S = 0, E = 0;
+					evil_seq(c, sd, sr, sq);
+					for (int b = 0; b < 8; b++) S = (S << 8) | sq[b];
+					uint8_t *rs = dir == DIR_C2S ? g_ep[1].conn->client_seq_num : g_ep[0].conn->server_seq_num;
+					uint8_t *ss = dir == DIR_C2S ? g_ep[0].conn->client_seq_num : g_ep[1].conn->server_seq_num;
+					for (int b = 0; b < 8; b++) E = (E << 8) | rs[b];
+					uint64_t shift = S + (1ULL << f->c) - E;
+					uint8_t *arr[2] = { rs, ss };
+					for (int a = 0; a < 2; a++) {
+						uint64_t v = 0;
+						for (int b = 0; b < 8; b++) v = (v << 8) | arr[a][b];
+						v += shift;
+						for (int b = 0; b < 8; b++) arr[a][7 - b] = (uint8_t)(v >> (8 * b));
+					}
+				}
 				fire(i, c, dir);
 				net_forward(c, dir, sp->sent + sp->recs[sr].off, sp->recs[sr].len);
 			}
@@ -558,6 +578,7 @@ static void gen_fault_data(Fault *f, Rng *g, const HonestOut *o, int proto)
 			if (!o->recs[f->dir][i].in_hs) idxs[cnt++] = i;
 		f->a = f->dir;
 		f->b = cnt ? idxs[rng_below(g, (uint32_t)cnt)] : f->rec;
+		if (rng_chance(g, 1, 3)) f->c = (int64_t[]){ 8, 16, 24, 31, 32, 40, 48, 56, 63 }[rng_below(g, 9)];   /* replay across 2^c records */
 		if (rng_chance(g, 1, 6)) {            /* or a protected handshake record (old keys) */
 			int h = 0;
 			for (int i = 0; i < o->nrecs[f->dir]; i++) if (o->recs[f->dir][i].in_hs) h = i;
